@@ -319,6 +319,10 @@ impl ImplicitConversion {
                 }
             }
             Some(ModifierCast(modd))
+        } else if primary_cast.is_some() && modd != TypeModifier::default() {
+            // A primary cast produces the unmodified destination type
+            // so the (shared) modifier has to be applied again
+            Some(ModifierCast(modd))
         } else {
             None
         };
